@@ -316,8 +316,8 @@ func truncPool(ts []tmpl, fix bool) []item {
 }
 
 // tcpoptPool: option areas of 0..40 bytes in which one option has a bad kind / length / position.
-func tcpoptPool() []item {
-	var areas [][]byte
+func tcpoptPool() (core []item, rest []item) {
+	var areas, coreAreas [][]byte
 	kinds := []byte{0, 1, 2, 3, 4, 5, 8, 9, 30, 254, 255}
 	lens := []byte{0, 1, 2, 3, 4, 5, 9, 10, 11, 12, 17, 18, 19, 26, 34, 35, 40, 41, 127, 128, 255}
 	for _, k := range kinds {
@@ -348,7 +348,8 @@ func tcpoptPool() []item {
 		}
 	}
 	// every fixed-size option one byte at a time past the end of the area: the option starts at
-	// size-n+d, so d of its n bytes are missing (d = 0: it fits exactly)
+	// size-n+d, so d of its n bytes are missing (d = 0: it fits exactly).  d in {0, 1, n-1} on
+	// areas of 12 and 40 bytes is the core that every run covers.
 	for _, kn := range [][2]int{{2, 4}, {3, 3}, {4, 2}, {8, 10}, {5, 10}, {5, 18}, {5, 34}, {30, 6}} {
 		k, n := kn[0], kn[1]
 		for _, size := range []int{12, 20, 40} {
@@ -368,7 +369,11 @@ func tcpoptPool() []item {
 				for i := pos + 2; i < size; i++ {
 					a[i] = byte(0x40 + i)
 				}
-				areas = append(areas, a)
+				if size != 20 && (d <= 1 || d == n-1) {
+					coreAreas = append(coreAreas, a)
+				} else {
+					areas = append(areas, a)
+				}
 			}
 		}
 	}
@@ -377,38 +382,35 @@ func tcpoptPool() []item {
 		append([]byte{1, 1, 5, 10}, make([]byte, 8)...), append([]byte{1, 1, 5, 18}, make([]byte, 16)...), append([]byte{1, 1, 5, 26}, make([]byte, 24)...),
 		append([]byte{1, 1, 5, 34}, make([]byte, 32)...), append(append(tsOpt(1, 2), 1, 1, 5, 26), make([]byte, 24)...), append([]byte{5, 34}, make([]byte, 38)...),
 		append([]byte{5, 42}, make([]byte, 38)...), append([]byte{5, 3}, make([]byte, 2)...), []byte{8, 10, 0, 0, 0, 1, 0, 0}, []byte{4, 2, 4, 2, 4, 2, 0, 0})
-	var pool []item
-	for i, a := range areas {
+	n := 0
+	mk := func(a []byte) []item {
 		for len(a)%4 != 0 {
 			a = append(a, 1)
 		}
 		if len(a) > 40 {
 			a = a[:40]
 		}
-		var fr frame
-		var lab string
-		switch i % 4 {
-		case 0:
-			fr = frame{proto: protoIPv4, b: tcp4(netx.TCPSeg{SrcPort: uint16(20000 + i%5000), DstPort: tcpPort, Seq: uint32(i), Flags: netx.FlagSyn, Wnd: 1000, Opts: a})}
-			lab = "syn"
-		case 1:
-			t := estSeg(netx.FlagAck, 0, 0, a, nil)
-			fr, lab = t.frame(), "est"
-		case 2:
-			fr = frame{proto: protoIPv4, b: tcp4(netx.TCPSeg{SrcPort: 5560, DstPort: 81, Seq: 1, Ack: 1, Flags: netx.FlagAck, Wnd: 1000, Opts: a})}
-			lab = "closed"
-		case 3:
-			// the ACK that completes a handshake in SYN-cookie style, and SYN|ACK (isAck branch of the parser)
-			fl := byte(netx.FlagAck)
-			if i%8 == 7 {
-				fl |= netx.FlagSyn
-			}
-			fr = frame{proto: protoIPv4, b: tcp4(netx.TCPSeg{SrcPort: uint16(20000 + i%5000), DstPort: tcpPort, Seq: uint32(i), Ack: 1, Flags: fl, Wnd: 1000, Opts: a})}
-			lab = "ack"
+		n++
+		sp := uint16(20000 + n%5000)
+		est := estSeg(netx.FlagAck, 0, 0, a, nil)
+		return []item{
+			// a SYN at the listener: header.ParseSynOptions(opts, false) in the listener goroutine
+			{"tcpopt/syn", frame{proto: protoIPv4, b: tcp4(netx.TCPSeg{SrcPort: sp, DstPort: tcpPort, Seq: uint32(n), Flags: netx.FlagSyn, Wnd: 1000, Opts: a})}},
+			// a segment of the established connection: header.ParseTCPOptions in segment.parse
+			{"tcpopt/est", est.frame()},
+			// a bare ACK at the listener (cookie path) / SYN|ACK (the isAck branch of the SYN parser)
+			{"tcpopt/ack", frame{proto: protoIPv4, b: tcp4(netx.TCPSeg{SrcPort: sp, DstPort: tcpPort, Seq: uint32(n), Ack: 1, Flags: netx.FlagAck | byte(n%2)*netx.FlagSyn, Wnd: 1000, Opts: a})}},
+			// a port nobody listens on: parsed by HandleUnknownDestinationPacket
+			{"tcpopt/closed", frame{proto: protoIPv4, b: tcp4(netx.TCPSeg{SrcPort: 5560, DstPort: 81, Seq: 1, Ack: 1, Flags: netx.FlagAck, Wnd: 1000, Opts: a})}},
 		}
-		pool = append(pool, item{"tcpopt/" + lab, fr})
 	}
-	return pool
+	for _, a := range coreAreas {
+		core = append(core, mk(a)[:3]...)
+	}
+	for _, a := range areas {
+		rest = append(rest, mk(a)...)
+	}
+	return core, rest
 }
 
 // icmpPool: ICMP errors whose embedded headers are mutated in the ways the control path looks at.
@@ -641,7 +643,7 @@ func generate(seed uint64, n int) []barrage {
 	ts := templates()
 	fpool := fieldPool(ts)
 	tpool := append(truncPool(ts, false), truncPool(ts, true)...)
-	opool := tcpoptPool()
+	ocore, opool := tcpoptPool()
 	ipool := icmpPool(ts)
 	spool := statePool(r)
 	var bs []barrage
@@ -654,7 +656,7 @@ func generate(seed uint64, n int) []barrage {
 	// a valid frame now and then keeps the state machines moving between mutants
 	pulse := func() frame { return ts[r.Intn(len(ts))].frame() }
 	finish := func(kind, label string, mode string, fs []frame) {
-		if mode == "netx" {
+		if mode == "netx" && kind != "regress" {
 			for i := range fs {
 				if fs[i].proto >= 0 && r.Intn(4) == 0 {
 					fs[i].chunk = chunkSizes[r.Intn(len(chunkSizes))]
@@ -677,9 +679,22 @@ func generate(seed uint64, n int) []barrage {
 
 	// pool-driven families: consecutive slices of a pool (the quick tier starts each slice at a
 	// seeded position; with n large enough the whole pool is covered)
-	slice := func(kind string, pool []item, count, per int) {
+	slice := func(kind string, core, pool []item, count, per int) {
 		if len(pool) == 0 {
 			return
+		}
+		// the core items first, in order, in every run
+		for i := 0; i < len(core) && count > 0; i += per {
+			j := i + per
+			if j > len(core) {
+				j = len(core)
+			}
+			var fs []frame
+			for _, it := range core[i:j] {
+				fs = append(fs, frame{proto: it.f.proto, b: it.f.b, patch: it.f.patch})
+			}
+			finish(kind, core[i].label+"/core", modeOf(), fs)
+			count--
 		}
 		covered := count*per >= len(pool)
 		for i := 0; i < count; i++ {
@@ -711,11 +726,11 @@ func generate(seed uint64, n int) []barrage {
 		}
 		return k
 	}
-	slice("field", fpool, share(27), 17)
-	slice("trunc", tpool, share(13), 18)
-	slice("tcpopt", opool, share(12), 17)
-	slice("icmp", ipool, share(6), 17)
-	slice("state", spool, share(10), 17)
+	slice("field", nil, fpool, share(27), 17)
+	slice("trunc", nil, tpool, share(13), 18)
+	slice("tcpopt", ocore, opool, share(12), 18)
+	slice("icmp", nil, ipool, share(6), 17)
+	slice("state", nil, spool, share(10), 17)
 
 	// ---- fragments
 	nfrag := share(20)
